@@ -4,6 +4,7 @@ from .. import catalogue as cat
 from ..ast import strip, flat_stmts, calls, nodes, is_param, is_local, is_this_member, full_container_loop, assigned_in, show
 from ..ir import walk
 from ..report import AnalysisBroken
+from .. import ownership as own
 
 LEVEL = 'other'
 
@@ -63,61 +64,23 @@ def run(ctx, prog):
                '_master_map is modified by %s' % sorted(writers['_master_map']), sample='_master_map written by %s' % sorted(writers['_master_map']))
         ctx.ob('C12.H1', 'pointer-writers|' + sc, okp and {'init_mms', 'select_mms'} <= writers['_master_pointer'], prog.records[rq]['l'],
                '_master_pointer is written by %s' % sorted(writers['_master_pointer']), sample='_master_pointer written by %s' % sorted(writers['_master_pointer']))
-        # select_mms: pointer = it->second with it = _master_map.find(param0)
+        # select_mms: every non-fatal path leaves the pointer on find(parameter)->second, guarded by the handle being registered
         sm = meths['select_mms']
-        E = terms.Evaluator(prog, scalar=scalar, noreturn=('masa_exit',), opaque=('list_mms',))
-        outs = E.run(sm)
-        good = [o for o in outs if o.kind != 'exit']
-        ok, why = len(good) == 1, 'select_mms has %d non-fatal paths' % len(good)
-        if ok:
-            v = good[0].mem.get('_master_pointer')
-            key = sm.params[0]['n']
-            want_it = ('mcall', ('sym', '_master_map'), 'find', (('sym', key),))
-            ok = v is not None and v[0] == 'field' and v[2] == 'second' and v[1][0] == 'call' and v[1][1] in ('op:operator->', 'op:operator*') and v[1][2][0] == want_it
-            why = '_master_pointer becomes `%s`, expected _master_map.find(%s)->second' % (terms.fmt(v) if v else None, key)
-            c = good[0].conds[0] if good[0].conds else None
-            if ok and not (c and c[0] == 'call' and c[1] == 'op:operator!=' and c[2][0] == want_it):
-                ok, why = False, 'selection is not guarded by find(%s) != end()' % key
-        ctx.ob('C12.H1', 'select-assigns-found|' + sc, ok, sm.where, why, sample='_master_pointer = _master_map.find(my_name)->second')
-        # ---- H2
+        sp, ngood = own.check_select(prog, sm, scalar)
+        ctx.ob('C12.H1', 'select-assigns-found|' + sc, not sp, sm.where, 'select_mms: ' + '; '.join(sp[:2]), sample='_master_pointer = _master_map.find(my_name)->second')
+        # ---- H2: decided on the ownership simulation of init_mms (sa/ownership.py)
         im = meths['init_mms']
-        st = flat_stmts(im.body)
-        vec_local = None
-        for s in st:
-            if s.get('k') == 'decl':
-                for v in s['vars']:
-                    if 'std::vector<MASA::manufactured_solution<' in v['t'] and not v.get('static'):
-                        vec_local = v
-        glm = [c for c in calls(im.body, name='get_list_mms')]
-        ok = vec_local is not None and len(glm) == 1 and is_local(glm[0]['args'][0], vec_local['id'])
-        why = 'init_mms does not fill a fresh local vector through get_list_mms'
-        stored = []
-        for n in walk(im.body):
-            if n.get('k') == 'bin' and n['op'] == '=':
-                t = strip(n['a'], casts=True)
-                if (t.get('k') == 'member' and t['n'] == '_master_pointer') or (t.get('k') == 'call' and t.get('n') == 'operator[]' and strip(t['args'][0], casts=True).get('n') == '_master_map'):
-                    r = strip(n['b'], casts=True)
-                    while r.get('k') == 'bin' and r['op'] == '=':
-                        r = strip(r['b'], casts=True)
-                    stored.append((n, r))
-        for n, r in stored:
-            elem = r.get('k') == 'call' and r.get('n') == 'operator[]' and vec_local is not None and is_local(r['args'][0], vec_local['id'])
-            if not elem:
-                ok, why = False, 'init_mms installs `%s`, which is not an element of the freshly built candidate vector' % show(r)
-        if not stored:
-            ok, why = False, 'init_mms installs nothing'
-        map_assigned = any(strip(n['a'], casts=True).get('k') == 'call' and strip(n['a'], casts=True).get('n') == 'operator[]' for n, r in stored)
-        erased = any(c.get('n') == 'erase' and strip(c.get('obj') or {}, casts=True).get('n') == '_master_map' for c in calls(im.body))
-        if stored and not (map_assigned or erased):
-            ok, why = False, ('the map entry of the handle is not assigned (no `_master_map[handle] = ...`, no erase before insert): '
-                              're-using a handle keeps the old instance in the registry')
+        res, info = own.check_init(prog, im, scalar)
+        inc = bool(res['complete'])
+        probs = res['one-install'] + res['selected'] + res['old-entry'] + res['key']
         gl, ents, other = cat.entries(prog, scalar)
-        if other and not all(s.get('k') == 'return' for s in other):
-            ok, why = False, 'get_list_mms contains statements other than push_back(new ...)'
-        for s in walk(gl.body):
-            if s.get('k') == 'local' and s.get('static'):
-                ok, why = False, 'get_list_mms uses a static local'
-        ctx.ob('C12.H2', 'fresh-instance|' + sc, ok, im.where, why, sample='anim filled by get_list_mms (%d new-expressions); _master_map[my_name] = anim[i]' % len(ents))
+        for s_ in walk(gl.body):
+            if s_.get('k') == 'local' and s_.get('static'):
+                probs.append('get_list_mms uses a static local')
+        ok = (not probs) if not inc else (False if probs else None)
+        ctx.ob('C12.H2', 'fresh-instance|' + sc, ok, im.where, '; '.join(probs[:2]) or 'not decided: ' + '; '.join(res['complete'][:2]),
+               sample='each of %d returning paths installs exactly one of the %d objects created in the same call, under the handle, replacing and deleting the previous one, and selects it' % (
+                   info['returning'], max(info['created'] or [0])))
         # ---- H3
         n_addr = 0
         for cls, _, _ in ents:
